@@ -42,6 +42,7 @@ def hash_case(rnd, name, p, kind):
 
 
 def plain_inputs(case):
+    if "hash_inputs" in case: return list(case["hash_inputs"])
     R = 1 << case["cfg"]["res"]
     out = []
     for s in case["prog"]:
@@ -75,6 +76,16 @@ def run(tier, seed):
         cases.append(dict(cfg=dict(p=pp, n=8, res=2, ign=0), prog=[["input", i, "priv", i] for i in range(t_)] + [["list", t_, list(range(t_))], ["permute", t_ + 1, name, t_]],
                           ins=[(-int(ps["round_constants"][0][i]) if i % 2 else 7 + i) for i in range(t_)], kind="permute", pname=name))
         for _ in range(k + 2): cases.append(hash_case(rnd, name, pp, "poseidon"))
+        # the gadget's module is first used (imported) inside a guarded region, taken or not, and then again at top level:
+        # the hash computed afterwards is still the reference hash
+        for gv in (0, 1):
+            for kind in ("poseidon", "permute"):
+                nin = t_ if kind == "permute" else 2
+                cases.append(dict(cfg=dict(p=pp, n=8, res=2, ign=0),
+                                  prog=[["input", i, "priv", i] for i in range(nin)] + [["list", nin, list(range(nin))], ["input", nin + 1, "priv", nin],
+                                        ["guarded", nin + 1, [[kind, nin + 2, name, nin]]], [kind, nin + 3, name, nin]],
+                                  ins=[5 + i for i in range(nin)] + [gv], kind=kind, pname=name, hash_inputs=[5 + i for i in range(nin)],
+                                  reimport=["pysnark.poseidon_hash"]))
         for i, c in enumerate(cases): c["id"] = i
         try:
             recs = progs.run_impl_cases(cases, backend_module=modname)
@@ -101,7 +112,7 @@ def run(tier, seed):
             if r["unsat"]: bad("unsatisfied", "constraints of the hash gadget violated by the recorded witness", cs)
             nblocks = len(poseidon_ref.pad(ps["t"] - 1, xs)) // (ps["t"] - 1) if c["kind"] == "poseidon" else 1
             nb = sum(1 for s in c["prog"] if s[0] == "input" and s[2].endswith("bool"))
-            counts[(c["kind"] == "poseidon", nblocks)].add(r["ncons"] - nb)
+            counts[(c["kind"] == "poseidon", nblocks, bool(c.get("reimport")))].add(r["ncons"] - nb)
             nontrivial.add((name, tuple(xs)))
             if len(samples) < 2: samples.append(dict(backend=name, inputs=[str(x)[:20] for x in xs], kind=c["kind"], constraints=r["ncons"]))
         for key, cset in counts.items():
